@@ -167,6 +167,31 @@ def check(rep, tier, seed):
                 rep.fail(kind="property-oracle", cls="project:nonneg", case=cd, observed=b, expected=">= 0",
                          detail="projection of a non-negative spectrum has a negative entry")
 
+    # projecting after creation = projecting during creation when no genotype is missing (on the binary)
+    from callsets import render_vcf, cli_samples_arg
+    from gen_create import random_map, pop_sizes
+    cj = []
+    for k in range(25 if tier == "quick" else 250):
+        nsmp = rng.randrange(2, 9)
+        cols = ["s%d" % i for i in range(nsmp)]
+        recs = [[rng.choice(["0/0", "0/1", "1/1", "1|0"]) for _ in cols] for _ in range(rng.randrange(1, 30))]
+        sm = random_map(rng, cols)
+        to = [rng.randrange(1, 2 * sz + 2) for sz in pop_sizes(sm)]
+        vcf = render_vcf(cols, recs)
+        cj.append((["create"] + cli_samples_arg(sm), vcf, to, len(recs)))
+    created = run_cli_many([(a, v) for a, v, _, _ in cj])
+    after = run_cli_many([(["view", "--project-shape", ",".join(map(str, to)), "--precision", "9"], c[1]) for (_, _, to, _), c in zip(cj, created)])
+    during = run_cli_many([(a + ["--project-shape", ",".join(map(str, to)), "--precision", "9"], v) for a, v, to, _ in cj])
+    for (a, v, to, nrec), x, y in zip(cj, after, during):
+        rep.count("create-then-project", " ".join(a) + " -> " + ",".join(map(str, to)), True, n=2)
+        px, py_ = parse_text_spectrum(x[1]), parse_text_spectrum(y[1])
+        ok = x[0] == 0 and y[0] == 0 and px is not None and py_ is not None and px[0] == py_[0] and len(px[1]) == len(py_[1]) and \
+            all(abs(Fraction(p) - Fraction(q)) <= Fraction(2, 10**9) + TOL * nrec for p, q in zip(px[1], py_[1]))
+        if not ok:
+            rep.fail(kind="property-oracle", cls="project:create-then-project", case=" ".join(a) + " then --project-shape " + ",".join(map(str, to)),
+                     argv=["sfs"] + a, stdin=v.decode(), observed=x[1].decode(errors="replace")[:300], expected=y[1].decode(errors="replace")[:300],
+                     detail="projecting after creation differs from projecting during creation on complete data")
+
     # CLI: --project-shape and -p (odd targets), text in -> text out at precision 6
     jobs, exp = [], []
     pool = [c for c in prj if impl.get(c, "").startswith("OK")]
